@@ -131,6 +131,9 @@ func newPkg(pkg *packages.Package, u *Universe) Package {
 				}
 
 				if named != nil {
+					// the receiver of a method of a generic type is an instance of it
+					named = named.Origin()
+
 					p.methods[named] = append(p.methods[named], x)
 				}
 			} else {
